@@ -64,6 +64,11 @@ def run(ctx):
             case['size'] = spec
             case['seed'] = kw['seed']
             ctx.bump('sampling_sizes')
+        if it % 7 == 2:
+            # pruning settings: the figures are about the expressions that remain
+            kw = dict(kw, **rng.choice([{'max_patterns': 1}, {'max_patterns': 2}, {'min_strings_per_pattern': 2}]))
+            case['pruning'] = {k_: v_ for k_, v_ in kw.items() if k_ in ('max_patterns', 'min_strings_per_pattern')}
+            ctx.bump('pruning')
         if it % 5 == 1:
             # progress output switched on (it goes to stdout): the figures are the same
             kw = dict(kw, verbose=rng.choice([1, 2, 3]))
